@@ -31,6 +31,9 @@ MC_Metas == [good      |-> [nameLen |-> 10, symLen |-> 4,  decimals |-> 7,   utf
              emptyName |-> [nameLen |-> 0,  symLen |-> 4,  decimals |-> 7,   utf8 |-> TRUE,  style |-> "ascii"],
              emptySym  |-> [nameLen |-> 5,  symLen |-> 0,  decimals |-> 7,   utf8 |-> TRUE,  style |-> "ascii"],
              badutf8   |-> [nameLen |-> 6,  symLen |-> 4,  decimals |-> 7,   utf8 |-> FALSE, style |-> "ascii"],
+             \* names that end in NUL bytes (zero-padded asset codes) and a symbol of NUL bytes only: announced as they are
+             nulpad    |-> [nameLen |-> 12, symLen |-> 4,  decimals |-> 7,   utf8 |-> TRUE,  style |-> "nulpad"],
+             nulsym    |-> [nameLen |-> 8,  symLen |-> 2,  decimals |-> 7,   utf8 |-> TRUE,  style |-> "nulsym"],
              itkMeta   |-> [nameLen |-> 12, symLen |-> 3,  decimals |-> 0,   utf8 |-> TRUE,  style |-> "ascii"],
              sacMeta   |-> [nameLen |-> 6,  symLen |-> 6,  decimals |-> 7,   utf8 |-> TRUE,  style |-> "sac"]]
 MC_Keys == {"k0"}
@@ -39,8 +42,8 @@ RawPayloads == [p0 |-> [outer |-> "recv", origin |-> "ethereum", inner |-> "tran
                         recipient |-> "bob", amt |-> 1, data |-> "none", mut |-> NoMut]]
 MC_Payloads == WithDecodes(RawPayloads)
 
-FakeMetas == IF Small THEN {"good", "dec256", "emptyName", "mb255"}
-             ELSE {"good", "mb255", "dec0", "asset", "dec256", "dec263", "emptyName", "emptySym", "badutf8"}
+FakeMetas == IF Small THEN {"good", "dec256", "emptyName", "mb255", "nulpad", "nulsym"}
+             ELSE {"good", "mb255", "dec0", "asset", "dec256", "dec263", "emptyName", "emptySym", "badutf8", "nulpad", "nulsym"}
 Dests == {"ethereum", "avalanche", "polygon", "axelar"}
 Gases == {-1, 0, 1, 9}
 Acts(s) ==
